@@ -6,4 +6,4 @@ From NX Require Import Bytes Reply Wire Query.
 Extraction Language OCaml.
 Extraction "model.ml"
   udp_adjust udp_reply tcp_frame tc_bit c05_udp_ok c05_tcp_ok
-  parse handle upstream_payload servfail.
+  parse handle serve upstream_payload servfail find_opts c13_ok c01_ok.
